@@ -58,6 +58,8 @@ def vocabulary():
         "fstr-conv": lambda: FString([FComponent([Tok("t", "E")], conversion="z")]),
         "(else)": lambda: E(S("else"), Tok("t", "E")), "(except)": lambda: E(S("except"), List([]), Tok("t", "E")),
         "(finally)": lambda: E(S("finally"), Tok("t", "S")),
+        "(else0)": lambda: E(S("else")), "(finally0)": lambda: E(S("finally")), "(except0)": lambda: E(S("except"), List([])),
+        "(except-named)": lambda: E(S("except"), List([S("u_e"), S("u_Exc")]), Tok("t", "SE")),
     }
 
 
@@ -188,12 +190,23 @@ def run(chk):
     ks = list(voc)
     hs = heads()
     maxa = 2 if quick else 3
+    clause_heads = {"try": 4, "hyx_Xwhile": 0}
     del TASKS[:]
     for h in hs:
         for n in range(0, maxa + 1):
             pool = ks if n <= 2 else [k for k in ks if k in ("E", "SE", "S", "sym", "kw", "[]", "[sym E]", "{odd}", "#*E", "#**E", "annotate",
-                                                             "()", "int", "str", "(else)", "(except)", "*", "_", "[E]", "None")]
+                                                             "()", "int", "str", "(else)", "(except)", "(finally)", "(else0)", "(finally0)", "(except0)", "*", "_",
+                                                             "[E]", "None")]
             for kinds in itertools.product(pool, repeat=n):
+                TASKS.append(("macro", h, kinds))
+    # clause-structured heads get deeper argument lists over the clause vocabulary (also in the quick tier)
+    cl = ["E", "SE", "(else)", "(else0)", "(except)", "(except0)", "(except-named)", "(finally)", "(finally0)"]
+    for n in (3, 4):
+        for kinds in itertools.product(cl, repeat=n):
+            TASKS.append(("macro", "try", kinds))
+    for h, cl2 in (("while", ["E", "SE", "(else)", "(else0)"]), ("for", ["[sym E]", "E", "S", "(else)", "(else0)"])):
+        for n in (3, 4):
+            for kinds in itertools.product(cl2, repeat=n):
                 TASKS.append(("macro", h, kinds))
     for lit in ("list", "tuple", "set", "dict", "fstring", "fcomponent"):
         for n in range(0, 3):
